@@ -120,7 +120,8 @@ func observe(root *ggql.Root) (desc string, answers []string, pan interface{}) {
 type c16Case struct {
 	Arrangements []*Arrangement `json:"arrangements"`
 	IllFormed    string         `json:"ill_formed,omitempty"`
-	Peek         bool           `json:"peek,omitempty"` // requests are served between the loads
+	Peek         bool           `json:"peek,omitempty"`       // requests are served between the loads
+	DupScalar    string         `json:"dup_scalar,omitempty"` // this scalar is declared twice in the set
 }
 
 func checkC16(c *c16Case) (ds []hx.Discrepancy, info map[string]bool) {
@@ -225,6 +226,9 @@ func TestC16(t *testing.T) {
 		if info["requests-served-between-loads"] {
 			cl = append(cl, "requests-served-between-loads")
 		}
+		if c.DupScalar != "" {
+			cl = append(cl, "scalar-declared-twice")
+		}
 		if c.IllFormed != "" {
 			cl = append(cl, "ill-formed-set", "ill-formed="+c.IllFormed)
 			if info["all-rejected"] {
@@ -292,6 +296,33 @@ func TestC16(t *testing.T) {
 		// every definition in a first load, nothing but the extend blocks in a second one
 		if parts := ExtendsLast(c.Arrangements[3]); parts != nil {
 			c.Arrangements = append(c.Arrangements, &Arrangement{Docs: [][]Piece{{{Text: parts[0]}}, {{Text: parts[1]}}}, Splits: 1, Moved: c.Arrangements[3].Moved})
+		}
+		if rapid.IntRange(0, 3).Draw(rt, "scalarDeclaredTwice") == 0 {
+			// the set declares one of its scalars twice (files that each declare the scalars they use,
+			// joined or loaded one by one): the second declaration changes nothing, wherever it lands
+			for _, td := range s.Types {
+				if td.Kind != hx.KScalar {
+					continue
+				}
+				dup := hx.TypeSDL(td, "", o)
+				for ai, a := range c.Arrangements {
+					first := 0
+					for di, d := range a.Docs {
+						for _, pc := range d {
+							if pc.Defines == td.Name {
+								first = di
+							}
+						}
+					}
+					di := rapid.IntRange(first, len(a.Docs)-1).Draw(rt, fmt.Sprintf("dupScalarDoc%d", ai))
+					pos := rapid.IntRange(0, len(a.Docs[di])).Draw(rt, fmt.Sprintf("dupScalarPos%d", ai))
+					doc := append([]Piece{}, a.Docs[di][:pos]...)
+					doc = append(doc, Piece{Text: dup})
+					a.Docs[di] = append(doc, a.Docs[di][pos:]...)
+				}
+				c.DupScalar = td.Name
+				break
+			}
 		}
 		if mut != nil && mut.Tail != "" {
 			// a violation written as raw text is part of the set in every arrangement
